@@ -677,8 +677,9 @@ class RIConvert(Contract):
         T = lambda I, env, k: []
         return {0: LoopSpec(inv=self.inv0, havoc=self.havoc0, on_init=self.init0, on_head=self.head0, step=self.step0),
                 1: LoopSpec(inv=self.inv1, havoc=self.havoc1),
-                2: LoopSpec(inv=T, on_head=self.head_rec, step=self.step_rec('ins')),
-                3: LoopSpec(inv=T, on_head=self.head_rec, step=self.step_rec('del'))}
+                # `variants` only collects the records whose construction the step obligations check: its content is not used
+                2: LoopSpec(inv=T, on_head=self.head_rec, step=self.step_rec('ins'), keep=('variants',)),
+                3: LoopSpec(inv=T, on_head=self.head_rec, step=self.step_rec('del'), keep=('variants',))}
 
     def post_return(self, I, st, ret):
         # reached only on the exit paths of the record loops: which blocks ran is decided by the two gates
